@@ -3,6 +3,9 @@ package main
 import (
 	"fmt"
 	"go/token"
+	"go/types"
+	"sort"
+	"strings"
 
 	"golang.org/x/tools/go/ssa"
 )
@@ -105,4 +108,105 @@ func c02r9(c *Ctx, r *Report) {
 		}
 	}
 	r.floor("non-ASCII lower-casing steps applied to characters of the line", n, 8)
+}
+
+// c13r10: the item builder (the function stored in ChunkList.trans) keeps state across calls — the
+// running item index, the header lines still to divert, the ANSI state of the previous line — so every
+// call of it has to be serialised. ChunkList.Push calls it under the list mutex; the streaming filter
+// has its own mutex (D20: it took that mutex only after the builder had run, and the built-in walker
+// pushes from several goroutines).
+func c13r10(c *Ctx, r *Report) {
+	l := c.L
+	r.rule("C13-R10", "A (lock held at every call site)", "P1",
+		"every call of a value of type ItemBuilder (the function stored in ChunkList.trans) is made with a write lock held: ChunkList.mutex in Push, the streaming filter's own mutex in the filter's pusher",
+		"two walker goroutines run the item builder at once: items get the same ordinal, --header-lines diverts more or fewer records than asked, the carried ANSI state is torn")
+	la := analyseLocks(l, map[string]bool{"Terminal": true})
+	n := 0
+	for _, fn := range l.AllFuncs() {
+		if fn.Blocks == nil || fn.Pkg != l.pkg("fzf") {
+			continue
+		}
+		eachInstr(fn, func(in ssa.Instruction) {
+			call, ok := in.(*ssa.Call)
+			if !ok || call.Common().IsInvoke() {
+				return
+			}
+			// the builder is recognised by its type: a value of the named type ItemBuilder
+			nt, ok := call.Common().Value.Type().(*types.Named)
+			if !ok || nt.Obj().Name() != "ItemBuilder" || !isModulePkg(nt.Obj().Pkg()) {
+				return
+			}
+			n++
+			held := []string{}
+			for k, v := range la.sets[fn][in] {
+				if v && !strings.HasSuffix(k, "#R") {
+					held = append(held, k)
+				}
+			}
+			sort.Strings(held)
+			r.check(len(held) > 0, fmt.Sprintf("%s:call of the ItemBuilder", relName(fn)), call.Pos(), fn,
+				"the item builder runs under a lock "+strings.Join(held, ","), "the item builder is called with no lock held: it is not serialised against other pushers")
+		})
+	}
+	r.floor("call sites of the item builder", n, 2)
+}
+
+// c06r9: the streaming filter never builds the chunk list, so it cannot honour --tail (the code says so in
+// a comment next to the Snapshot(opts.Tail) call of the other branch); the decision to stream therefore
+// has to look at opts.Tail (D21: it did not, and `--filter --no-sort --tail N` printed matches from the
+// whole input).
+func c06r9(c *Ctx, r *Report) {
+	l := c.L
+	r.rule("C06-R9", "C (the decision consults the option)", "P1",
+		"in Run, the pusher that bypasses ChunkList.Push (the streaming filter) is created only under a condition that compares Options.Tail with a constant",
+		"--filter with --no-sort ignores --tail: records before the last N remain searchable and are printed")
+	run := l.Fn("fzf", "Run")
+	push := l.Fn("fzf", "(*ChunkList).Push")
+	newReader := l.Fn("fzf", "NewReader")
+	if run == nil || push == nil || newReader == nil {
+		r.unest("anchors", token.NoPos, nil, "anchors Run / ChunkList.Push / NewReader", "cannot resolve")
+		return
+	}
+	n := 0
+	pc := pathConds(run)
+	eachInstr(run, func(in ssa.Instruction) {
+		call, ok := in.(*ssa.Call)
+		if !ok || !callIs(call.Common(), newReader) {
+			return
+		}
+		mc, ok := call.Call.Args[0].(*ssa.MakeClosure)
+		if !ok {
+			return
+		}
+		pusher := mc.Fn.(*ssa.Function)
+		callsPush := false
+		eachInstr(pusher, func(i2 ssa.Instruction) {
+			if c2, ok := i2.(*ssa.Call); ok && callIs(c2.Common(), push) {
+				callsPush = true
+			}
+		})
+		if callsPush {
+			return
+		}
+		n++
+		consults := false
+		for _, dj := range pc.At(call.Block()) {
+			for _, lt := range dj {
+				for w := range backwardSlice(lt.Atom, nil, nil) {
+					b, ok := w.(*ssa.BinOp)
+					if !ok {
+						continue
+					}
+					for _, side := range []ssa.Value{b.X, b.Y} {
+						if f, _ := loadedField(side); f != nil && f.Name() == "Tail" {
+							consults = true
+						}
+					}
+				}
+			}
+		}
+		r.check(consults, fmt.Sprintf("%s:pusher bypassing ChunkList.Push is excluded under --tail", relName(run)), call.Pos(), run,
+			"the condition under which the streaming pusher is created compares Options.Tail", "the streaming pusher is created without looking at Options.Tail: the streamed records are never trimmed to the last N")
+	})
+	r.floor("pushers that bypass ChunkList.Push", n, 1)
 }
